@@ -9,8 +9,8 @@ From Coq Require Import List Arith Bool NArith.
 From SV Require Import Base.SrcAst Model.Accept Generated.SourceParams.
 Import ListNotations.
 
-Lemma accept_translated : src_problems_accept = 0%nat.
-Proof. reflexivity. Qed.
+Lemma accept_translated : src_problems_accept = 0%nat /\ src_problems_spawn = 0%nat.
+Proof. split; reflexivity. Qed.
 
 Fixpoint suffix_from (p : acc_stmt -> bool) (l : list acc_stmt) : list acc_stmt :=
   match l with
@@ -106,9 +106,14 @@ Definition eval_accept (body : list acc_stmt) (s : st) (ev : acc_event) : option
       | _ => None
       end
   | SleepAfterError, EvLoop => Some (end_iteration true s)
-  | Done, EvLoop =>                                (* the task spawned in src/lib.rs sends the stopped signal *)
-      if stopped s then None
-      else Some (mk_st Done (avail s) (conns s) (revoked s) (listening s) true (next_id s) (lost s))
+  | Done, EvLoop =>
+      (* accept_loop has returned: the task spawned in src/lib.rs (translated too) goes on to its next statement *)
+      match src_spawn_task with
+      | [SSAcceptLoop; SSSendStopped] =>
+          if stopped s then None                   (* the task has ended *)
+          else Some (mk_st Done (avail s) (conns s) (revoked s) (listening s) true (next_id s) (lost s))
+      | _ => None
+      end
   | _, _ => None
   end.
 
